@@ -2,6 +2,12 @@ package checks
 
 import (
 	"fmt"
+	"net/http"
+	"os"
+	"path/filepath"
+
+	"tkestack.io/kvass/pkg/target"
+	"verif/engine/rig"
 
 	"verif/engine/chk"
 	"verif/engine/h1"
@@ -236,6 +242,47 @@ func c05Oracle(sc *h1.Scenario, o *h1.Obs) []Finding {
 
 func init() {
 	chk.Register("C05", func(c *chk.Ctx) {
+		// (0) what a destination reports as "scrapes" are scrapes: a shard that has no client for the target's job
+		// (it could not be built there, e.g. a CA file missing in that pod) answers Prometheus' requests for the
+		// target with an error without contacting it - its scrape counter for the target stays at zero, so the
+		// coordinator does not take the target away from the source on its account
+		if c.Part == 0 {
+			dir := filepath.Join(os.Getenv("VERIF_SCRATCH"), "c05-noclient")
+			defer os.RemoveAll(dir)
+			contacted := 0
+			net := &rig.Targets{}
+			net.Serve = func(req *http.Request) rig.Answer { contacted++; return rig.Answer{Body: rig.Payload(3)} }
+			sc, err := rig.NewSidecar(dir, net, false)
+			if err != nil {
+				chk.Fatalf("%v", err)
+			}
+			if err := sc.PushConfig("scrape_configs:\n- job_name: j1\n  static_configs:\n  - targets: [\"x:1\"]\n- job_name: j2\n  scheme: https\n  tls_config:\n    ca_file: /nonexistent/verif-ca.pem\n  static_configs:\n  - targets: [\"y:1\"]\n"); err != nil {
+				chk.Fatalf("%v", err)
+			}
+			if sc.SM.GetJob("j2") != nil {
+				chk.Fatalf("HARNESS: the job with a missing CA file has a client")
+			}
+			if err := sc.Update(map[string][]*target.Target{"j1": {c14Target(1, [2]int64{1, 1})}, "j2": {c14Target(7, [2]int64{1, 1})}}); err != nil {
+				chk.Fatalf("%v", err)
+			}
+			for i := 0; i < handoverMin+1; i++ {
+				code, _, _ := sc.Scrape(rig.ProxyURL("j2", 7, "https", "t7:443", "/metrics", nil))
+				c.R.Transitions++
+				if code == 200 {
+					c.R.Violate("C05:scrape-without-client", "destination-scraped", "a request for a target whose job has no client on this shard was answered 200", -1, map[string]interface{}{"property": "C05", "clause": "destination-scraped"})
+				}
+			}
+			c.R.States++
+			st, _ := sc.Status()
+			if contacted != 0 || st[7] == nil || st[7].ScrapeTimes != 0 {
+				n := uint64(0)
+				if st[7] != nil {
+					n = st[7].ScrapeTimes
+				}
+				c.R.Violate("C05:scrapes-reported-without-scraping", "destination-scraped", fmt.Sprintf("a shard without a client for the job answered %d requests for the target with an error and never contacted it (%d contacts), yet reports %d scrapes of it: the coordinator would drop the source's copy", handoverMin+1, contacted, n), -1,
+					map[string]interface{}{"property": "C05", "clause": "destination-scraped", "config": "job j2 with tls_config.ca_file pointing to a missing file", "requests": handoverMin + 1, "reported_scrape_times": n})
+			}
+		}
 		gen := func(emit func(*h1.Scenario)) {
 			c05PairGen(c.Thorough())(emit)
 			for _, p := range c05MoveCfgs(c.Thorough()) {
